@@ -263,3 +263,604 @@ Proof.
   - rewrite rev_app_distr in Ha. simpl in Ha. now rewrite charged_rev in Ha.
   - unfold trace in E. rewrite E, <- app_assoc. reflexivity.
 Qed.
+
+(* ------------------------------------------------------------------------------------------------------------ *)
+(* who gets which result                                                                                         *)
+Definition rp (x : nat * nat * Z) : nat * Z := (fst (fst x), snd x).
+Definition bp (x : rjob * Z) : nat * Z := (fst (fst x), snd x).
+Definition ids (c : col) : list nat := map fst (spawned c) ++ map fst (inflight c) ++ map fst (dones (rtrace c)).
+
+Record Inv2 (c : col) : Prop := mkInv2 {
+  j_fifo : map rp (rev (results (rtrace c))) ++ map bp (buffer c) = oks_pre (rev (dones (rtrace c)));
+  j_err : err c = None <-> existsb is_err (dones (rtrace c)) = false;
+  j_errin : forall e, err c = Some e -> exists s, In (s, Err e) (dones (rtrace c));
+  j_nodup : NoDup (ids c);
+  j_lt : forall s, In s (ids c) -> s < nsid c;
+  j_job : forall s j, In (s, j) (spawned c ++ inflight c ++ map fst (buffer c)) -> In (s, tag j) (takes (rtrace c));
+  j_res : forall s tg p, In (s, tg, p) (results (rtrace c)) -> In (s, tg) (takes (rtrace c));
+  j_seq : map fst (rev (takes (rtrace c))) = seq 0 (nsid c) }.
+
+Lemma inv2_ext c c' :
+  spawned c' = spawned c -> inflight c' = inflight c -> buffer c' = buffer c -> err c' = err c -> nsid c' = nsid c ->
+  results (rtrace c') = results (rtrace c) -> dones (rtrace c') = dones (rtrace c) ->
+  takes (rtrace c') = takes (rtrace c) -> Inv2 c -> Inv2 c'.
+Proof.
+  intros E1 E2 E3 E4 E5 E6 E7 E8 [H1 H2 H3 H4 H5 H6 H7 H8].
+  constructor; unfold ids in *; rewrite ?E1, ?E2, ?E3, ?E4, ?E5, ?E6, ?E7, ?E8; auto.
+Qed.
+
+Lemma inv2_init budget orc : Inv2 (init budget orc).
+Proof.
+  constructor; unfold ids; simpl; auto; try tauto; try discriminate; try constructor.
+Qed.
+
+Lemma inv2_set_st s c : Inv2 c -> Inv2 (set_st s c).
+Proof. apply inv2_ext; reflexivity. Qed.
+
+Lemma inv2_emit_neutral e c :
+  (match e with EAsk _ | ERaise _ | EHalt => True | _ => False end) -> Inv2 c -> Inv2 (emit e c).
+Proof. intros He. destruct e; try contradiction; apply inv2_ext; reflexivity. Qed.
+
+Lemma inv2_ask c : Inv2 c -> Inv2 (ask c).
+Proof.
+  intros H. unfold ask. destruct (oracle c); apply inv2_emit_neutral; simpl; auto.
+  revert H. apply inv2_ext; reflexivity.
+Qed.
+
+Lemma in_app3 {A} (x : A) a b c : In x (a ++ b ++ c) <-> In x a \/ In x b \/ In x c.
+Proof. rewrite !in_app_iff. tauto. Qed.
+
+Lemma inv2_take j q c : Inv2 c -> Inv2 (take j q c).
+Proof.
+  intros [H1 H2 H3 H4 H5 H6 H7 H8].
+  assert (Hp : Permutation (ids (take j q c)) (nsid c :: ids c)).
+  { unfold ids; simpl. rewrite map_app; simpl. rewrite <- app_assoc. simpl.
+    apply Permutation_sym, Permutation_middle. }
+  constructor; simpl; auto.
+  - eapply Permutation_NoDup; [apply Permutation_sym, Hp|]. constructor; auto.
+    intros Hin. apply H5 in Hin. lia.
+  - intros s Hin. eapply Permutation_in in Hin; [|exact Hp]. destruct Hin as [<-|Hin]; [lia|].
+    apply H5 in Hin. lia.
+  - intros s j0 Hin. rewrite <- app_assoc in Hin. apply in_app_iff in Hin. destruct Hin as [Hin|Hin].
+    + right. apply H6. apply in_app_iff; auto.
+    + simpl in Hin. destruct Hin as [Hin|Hin].
+      * inversion Hin; subst. left; auto.
+      * right. apply H6. apply in_app_iff; auto.
+  - intros s tg p Hin. right. eauto.
+  - rewrite map_app, H8. change (0 :: seq 1 (nsid c)) with (seq 0 (S (nsid c))). rewrite seq_S. reflexivity.
+Qed.
+
+Lemma inv2_fill : forall fuel conc c, Inv2 c -> Inv2 (fill fuel conc c).
+Proof.
+  induction fuel as [|f IH]; intros conc c H; simpl; [apply inv2_set_st; auto|].
+  destruct (budget_left (remaining c) && (nrun c <? conc)); auto.
+  assert (Hask : Inv2 (match queued c with [] => ask c | _ :: _ => c end)).
+  { destruct (queued c); auto using inv2_ask. }
+  set (c1 := match queued c with [] => ask c | _ :: _ => c end) in *.
+  destruct (queued c1) as [|j q]; auto using inv2_take.
+Qed.
+
+Lemma inv2_deliver x b c : buffer c = x :: b -> Inv2 c -> Inv2 (deliver x b c).
+Proof.
+  intros Eb [H1 H2 H3 H4 H5 H6 H7 H8]. rewrite Eb in *.
+  constructor; simpl; auto.
+  - rewrite <- H1. simpl. rewrite map_app, <- app_assoc. reflexivity.
+  - intros s j Hin. apply H6. apply in_app3 in Hin. apply in_app3. simpl. tauto.
+  - intros s tg p [Hin|Hin]; eauto.
+    inversion Hin; subst. apply H6. apply in_app3. right; right. simpl. left.
+    destruct x as [[s j] p]; reflexivity.
+Qed.
+
+Lemma inv2_resume : forall fuel conc c, Inv2 c -> Inv2 (resume fuel conc c).
+Proof.
+  induction fuel as [|f IH]; intros conc c H; simpl.
+  - destruct (buffer c); [|apply inv2_set_st; auto].
+    destruct (err c); [apply inv2_emit_neutral; simpl; auto|]; apply inv2_set_st; auto.
+  - destruct (buffer c) as [|x b] eqn:Eb.
+    + destruct (err c); [apply inv2_emit_neutral; simpl; auto|]; apply inv2_set_st; auto.
+    + assert (H2 : Inv2 (fill (S conc) conc (deliver x b c))) by (apply inv2_fill, inv2_deliver; auto).
+      destruct (is_oof _); auto. destruct (nrun _ =? 0); auto.
+      apply inv2_emit_neutral; simpl; auto. apply inv2_set_st; auto.
+Qed.
+
+Lemma inv2_boot conc c : Inv2 c -> Inv2 (boot conc c).
+Proof.
+  intros H. unfold boot. assert (H2 : Inv2 (fill (S conc) conc c)) by (apply inv2_fill; auto).
+  destruct (is_oof _); auto. destruct (nrun _ =? 0); auto using inv2_resume.
+  apply inv2_emit_neutral; simpl; auto. apply inv2_set_st; auto.
+Qed.
+
+Lemma perm_move {A} (x : A) a b c : Permutation (a ++ (b ++ [x]) ++ c) (x :: a ++ b ++ c).
+Proof.
+  rewrite <- (app_assoc b). simpl. rewrite (app_assoc a b (x :: c)).
+  apply Permutation_sym. rewrite (app_assoc a b c). apply Permutation_middle.
+Qed.
+
+Lemma inv2_start_all : forall n c, Inv2 c -> Inv2 (start_all n c).
+Proof.
+  induction n as [|n IH]; intros c H; simpl; auto.
+  destruct (spawned c) as [|x r] eqn:Es; auto.
+  apply IH. destruct H as [H1 H2 H3 H4 H5 H6 H7 H8].
+  assert (Hp : Permutation (map fst r ++ map fst (inflight c ++ [x]) ++ map fst (dones (rtrace c))) (ids c)).
+  { unfold ids. rewrite Es. simpl. rewrite map_app. simpl. apply perm_move. }
+  constructor; unfold ids; simpl; auto.
+  - eapply Permutation_NoDup; [apply Permutation_sym, Hp|]; auto.
+  - intros s Hin. apply H5. eapply Permutation_in; eauto.
+  - intros s j Hin. apply H6. rewrite Es. apply in_app3 in Hin. apply in_app3.
+    rewrite in_app_iff in Hin. simpl in *. tauto.
+Qed.
+
+Lemma inv2_flush c : Inv2 c -> Inv2 (flush c).
+Proof. intros H. unfold flush. destruct (st c); auto using inv2_start_all. Qed.
+
+Lemma remove_nth_perm {A} : forall n (l : list A) x r, remove_nth n l = Some (x, r) -> Permutation l (x :: r).
+Proof.
+  induction n as [|n IH]; intros [|y l] x r H; simpl in *; try discriminate.
+  - inversion H; subst; auto.
+  - destruct (remove_nth n l) as [[z r']|] eqn:E; try discriminate. inversion H; subst.
+    rewrite (IH _ _ _ E). apply perm_swap.
+Qed.
+
+Lemma existsb_rev {A} (f : A -> bool) l : existsb f (rev l) = existsb f l.
+Proof.
+  induction l as [|x l IH]; simpl; auto. rewrite existsb_app, IH. simpl. rewrite orb_false_r. apply orb_comm.
+Qed.
+
+Lemma oks_pre_app l d :
+  oks_pre (l ++ [d]) =
+  if existsb is_err l then oks_pre l
+  else oks_pre l ++ match snd d with Ok p => [(fst d, p)] | Err _ => [] end.
+Proof.
+  induction l as [|[s o] l IH]; simpl.
+  - destruct d as [s [p|e]]; reflexivity.
+  - destruct o as [p|e]; unfold is_err at 1; simpl; auto. rewrite IH.
+    destruct (existsb is_err l); reflexivity.
+Qed.
+
+Lemma inv2_complete c ev : Inv2 c -> Inv2 (complete c ev).
+Proof.
+  intros H. unfold complete. destruct (remove_nth (fst ev) (inflight c)) as [[x rest]|] eqn:E; auto.
+  apply remove_nth_perm in E.
+  destruct H as [H1 H2 H3 H4 H5 H6 H7 H8].
+  assert (Hp : Permutation (map fst (spawned c) ++ map fst rest ++ fst x :: map fst (dones (rtrace c))) (ids c)).
+  { unfold ids. apply Permutation_app_head. rewrite (Permutation_map fst E). simpl.
+    apply Permutation_sym, Permutation_middle. }
+  assert (Hnd : NoDup (map fst (spawned c) ++ map fst rest ++ fst x :: map fst (dones (rtrace c)))).
+  { eapply Permutation_NoDup; [apply Permutation_sym, Hp|]; auto. }
+  assert (Hlt : forall s, In s (map fst (spawned c) ++ map fst rest ++ fst x :: map fst (dones (rtrace c))) -> s < nsid c).
+  { intros s Hin. apply H5. eapply Permutation_in; eauto. }
+  assert (Hin_x : forall y, In y rest -> In y (inflight c)).
+  { intros y Hy. eapply Permutation_in; [apply Permutation_sym, E|]. right; auto. }
+  assert (Hx : In x (inflight c)).
+  { eapply Permutation_in; [apply Permutation_sym, E|]. left; auto. }
+  assert (Hex : existsb is_err (dones (rtrace c)) = match err c with None => false | Some _ => true end).
+  { destruct (err c); [|apply H2; auto].
+    destruct (existsb is_err (dones (rtrace c))) eqn:Ex; auto. destruct H2 as [_ H2]. specialize (H2 eq_refl). discriminate. }
+  assert (Hjob : forall s j, In (s, j) (spawned c ++ rest ++ map fst (buffer c)) -> In (s, tag j) (takes (rtrace c))).
+  { intros s j Hin. apply H6. apply in_app3 in Hin. apply in_app3. intuition. }
+  simpl. destruct (snd ev) as [p|e] eqn:Eo; destruct (err c) as [e0|] eqn:Ee;
+    constructor; unfold ids; simpl; auto; try discriminate.
+  all: try solve [rewrite oks_pre_app, existsb_rev, Hex; exact H1].
+  all: try solve [rewrite oks_pre_app, existsb_rev, Hex; simpl; rewrite map_app, app_assoc, H1; reflexivity].
+  all: try solve [rewrite oks_pre_app, existsb_rev, Hex; simpl; rewrite app_nil_r; exact H1].
+  all: try solve [split; discriminate].
+  all: try solve [split; [discriminate | unfold is_err at 1; simpl; discriminate]].
+  all: try solve [intros e1 He1; destruct (H3 _ He1) as [s Hs]; exists s; right; exact Hs].
+  all: try solve [intros e1 He1; inversion He1; subst; exists (fst x); left; reflexivity].
+  (* the job whose result enters the buffer *)
+  intros s j Hin. apply in_app3 in Hin. rewrite map_app, in_app_iff in Hin. simpl in Hin.
+  destruct Hin as [Hin|[Hin|[Hin|[Hin|[]]]]]; try (apply Hjob; apply in_app3; tauto).
+  subst. apply H6. apply in_app3. right; left. exact Hx.
+Qed.
+
+Lemma inv2_fold_complete : forall batch c, Inv2 c -> Inv2 (fold_left complete batch c).
+Proof. induction batch as [|ev b IH]; intros c H; simpl; auto using inv2_complete. Qed.
+
+Lemma inv2_step conc c batch : Inv2 c -> Inv2 (step conc c batch).
+Proof.
+  intros H. unfold step. destruct (st c); auto.
+  destruct (woken _); auto using inv2_fold_complete, inv2_flush, inv2_resume.
+Qed.
+
+Lemma inv2_run conc budget orc sched : Inv2 (run conc budget orc sched).
+Proof.
+  unfold run.
+  assert (H : Inv2 (flush (boot conc (init budget orc)))) by auto using inv2_flush, inv2_boot, inv2_init.
+  revert H. generalize (flush (boot conc (init budget orc))).
+  induction sched as [|b s IH]; intros c H; simpl; auto using inv2_step.
+Qed.
+
+(* ------------------------------------------------------------------------------------------------------------ *)
+(* quiescent states: what holds whenever the loop is suspended or finished                                       *)
+Definition Sat (conc : nat) (c : col) : Prop :=
+  budget_left (remaining c) = true -> nrun c < conc -> queued c = [] /\ starved (rtrace c) = true.
+
+Record R (conc : nat) (c : col) : Prop := mkR {
+  r_buf : buffer c = [];
+  r_wait : st c = Waiting -> err c = None /\ 0 < nrun c;
+  r_halt : st c = Halted -> nrun c = 0;
+  r_raise : forall e, st c = Raised e -> err c = Some e;
+  r_oof : st c <> OutOfFuel;
+  r_sat : st c = Waiting \/ st c = Halted -> Sat conc c }.
+
+Definition Q (conc : nat) (c : col) : Prop :=
+  R conc c /\ (st c = Waiting \/ st c = Halted -> spawned c = []).
+
+Lemma fill_frame : forall fuel conc c, buffer (fill fuel conc c) = buffer c /\ err (fill fuel conc c) = err c.
+Proof.
+  induction fuel as [|f IH]; intros conc c; simpl; auto.
+  destruct (budget_left (remaining c) && (nrun c <? conc)); auto.
+  assert (Ha : buffer (match queued c with [] => ask c | _ :: _ => c end) = buffer c /\
+               err (match queued c with [] => ask c | _ :: _ => c end) = err c).
+  { destruct (queued c); auto. unfold ask. destruct (oracle c); simpl; auto. }
+  set (c1 := match queued c with [] => ask c | _ :: _ => c end) in *.
+  destruct (queued c1) as [|j q]; auto.
+  destruct (IH conc (take j q c1)) as [E1 E2]. rewrite E1, E2. simpl. exact Ha.
+Qed.
+
+Lemma fill_sat : forall fuel conc c, nrun c <= conc -> conc - nrun c < fuel -> Sat conc (fill fuel conc c).
+Proof.
+  induction fuel as [|f IH]; intros conc c Hle Hf; [lia|]. simpl.
+  destruct (budget_left (remaining c) && (nrun c <? conc)) eqn:E.
+  - apply andb_prop in E. destruct E as [Eb E]. apply Nat.ltb_lt in E.
+    destruct (queued c) as [|j q] eqn:Eq.
+    + unfold ask. destruct (oracle c) as [|a o].
+      * simpl. rewrite Eq. intros _ _. simpl. auto.
+      * simpl. rewrite Eq. simpl. destruct a as [|j q].
+        -- intros _ _. simpl. auto.
+        -- apply IH; simpl; lia.
+    + rewrite Eq. apply IH; simpl; lia.
+  - intros Hb Hn. apply Nat.ltb_lt in Hn. rewrite Hb, Hn in E. discriminate.
+Qed.
+
+Lemma idle_empty conc budget c : Inv conc budget c -> nrun c = 0 ->
+  buffer c = [] /\ inflight c = [] /\ spawned c = [].
+Proof.
+  intros [H1 H2 H3 H4 _ _ _ _ _ _ _] Hn.
+  repeat split; apply length_zero_iff_nil; lia.
+Qed.
+
+Lemma resume_cons f conc c x b : buffer c = x :: b ->
+  resume (S f) conc c =
+  let c2 := fill (S conc) conc (deliver x b c) in
+  if is_oof (st c2) then c2 else if nrun c2 =? 0 then emit EHalt (set_st Halted c2) else resume f conc c2.
+Proof. intros E. unfold resume at 1. rewrite E. reflexivity. Qed.
+
+Lemma resume_nil f conc c : buffer c = [] ->
+  resume f conc c = match err c with Some e => emit (ERaise e) (set_st (Raised e) c) | None => set_st Waiting c end.
+Proof. intros E. destruct f; simpl; rewrite E; reflexivity. Qed.
+
+Lemma resume_post : forall fuel conc budget c,
+  Inv conc budget c -> length (buffer c) <= fuel -> st c <> OutOfFuel -> Sat conc c -> 0 < nrun c ->
+  R conc (resume fuel conc c).
+Proof.
+  induction fuel as [|f IH]; intros conc budget c HI Hlen Hoof Hsat Hpos.
+  - destruct (buffer c) as [|x b] eqn:Eb; [|simpl in Hlen; lia].
+    rewrite resume_nil; auto.
+    destruct (err c) as [e|] eqn:Ee; constructor; simpl; auto; try discriminate; try congruence.
+    all: try (intros [H|H]; discriminate).
+  - destruct (buffer c) as [|x b] eqn:Eb.
+    + rewrite resume_nil; auto.
+      destruct (err c) as [e|] eqn:Ee; constructor; simpl; auto; try discriminate; try congruence.
+      all: try (intros [H|H]; discriminate).
+    + rewrite (resume_cons f conc c x b Eb). cbv zeta.
+      pose proof (inv_deliver conc budget x b c Eb HI) as HD.
+      pose proof (i_conc _ _ _ HD) as Hc.
+      assert (Hst : st (fill (S conc) conc (deliver x b c)) = st c).
+      { rewrite fill_st_le; auto; lia. }
+      assert (HI2 : Inv conc budget (fill (S conc) conc (deliver x b c))) by (apply inv_fill; [lia|auto]).
+      assert (Hs2 : Sat conc (fill (S conc) conc (deliver x b c))) by (apply fill_sat; [auto|lia]).
+      destruct (fill_frame (S conc) conc (deliver x b c)) as [Fb Fe].
+      set (c2 := fill (S conc) conc (deliver x b c)) in *.
+      assert (Hno : is_oof (st c2) = false) by (rewrite Hst; destruct (st c); auto; congruence).
+      rewrite Hno.
+      destruct (nrun c2 =? 0) eqn:En.
+      * apply Nat.eqb_eq in En.
+        constructor; simpl; auto; try discriminate.
+        all: try (apply (idle_empty conc budget c2); auto).
+        all: try (intros _; exact Hs2).
+      * apply Nat.eqb_neq in En.
+        apply (IH conc budget c2); auto.
+        -- rewrite Fb. simpl in *. lia.
+        -- rewrite Hst; auto.
+        -- lia.
+Qed.
+
+Lemma boot_post conc budget orc : R conc (boot conc (init budget orc)).
+Proof.
+  unfold boot.
+  pose proof (inv_init conc budget orc) as HI.
+  assert (Hst : st (fill (S conc) conc (init budget orc)) = Waiting).
+  { rewrite fill_st_le; simpl; auto; lia. }
+  assert (HI2 : Inv conc budget (fill (S conc) conc (init budget orc))) by (apply inv_fill; [lia|auto]).
+  assert (Hs2 : Sat conc (fill (S conc) conc (init budget orc))) by (apply fill_sat; simpl; lia).
+  destruct (fill_frame (S conc) conc (init budget orc)) as [Fb Fe].
+  set (c2 := fill (S conc) conc (init budget orc)) in *.
+  rewrite Hst. simpl.
+  destruct (nrun c2 =? 0) eqn:En.
+  - apply Nat.eqb_eq in En. constructor; simpl; auto; try discriminate.
+  - apply Nat.eqb_neq in En. apply (resume_post 0 conc budget c2); auto.
+    + rewrite Fb. simpl. lia.
+    + rewrite Hst. discriminate.
+    + lia.
+Qed.
+
+Lemma start_all_frame : forall n c,
+  buffer (start_all n c) = buffer c /\ err (start_all n c) = err c /\ nrun (start_all n c) = nrun c /\
+  st (start_all n c) = st c /\ remaining (start_all n c) = remaining c /\ queued (start_all n c) = queued c /\
+  starved (rtrace (start_all n c)) = starved (rtrace c) /\
+  (length (spawned c) <= n -> spawned (start_all n c) = []).
+Proof.
+  induction n as [|n IH]; intros c; simpl.
+  - repeat split; auto. destruct (spawned c); simpl; auto; lia.
+  - destruct (spawned c) as [|x r] eqn:Es; [repeat split; auto|].
+    specialize (IH (emit (EStart (fst x))
+      (mkcol (queued c) r (inflight c ++ [x]) (buffer c) (nrun c) (remaining c) (oracle c) (nsid c) (err c) (st c) (rtrace c)))).
+    simpl in IH. destruct IH as (A & B & C & D & E & F & G & H).
+    repeat split; auto. intros Hl. apply H. simpl in Hl. lia.
+Qed.
+
+Lemma flush_post conc c : R conc c -> Q conc (flush c).
+Proof.
+  intros [H1 H2 H3 H4 H5 H6]. unfold flush, Q.
+  destruct (start_all_frame (length (spawned c)) c) as (A & B & C & D & E & F & G & H).
+  destruct (st c) eqn:Est.
+  1,2: split; [constructor|]; rewrite ?A, ?B, ?C, ?D; auto;
+       try (intros HH; unfold Sat; rewrite C, E, F, G; apply H6; auto);
+       try (intros _; apply H; lia).
+  - split; [constructor|]; rewrite ?Est; auto; try congruence.
+    all: try (intros [X|X]; discriminate).
+  - congruence.
+Qed.
+
+Lemma complete_frame c ev :
+  nrun (complete c ev) = nrun c /\ remaining (complete c ev) = remaining c /\ queued (complete c ev) = queued c /\
+  st (complete c ev) = st c /\ spawned (complete c ev) = spawned c /\
+  starved (rtrace (complete c ev)) = starved (rtrace c) /\
+  (woken c = true -> woken (complete c ev) = true) /\
+  (woken (complete c ev) = false -> complete c ev = c).
+Proof.
+  unfold complete. destruct (remove_nth (fst ev) (inflight c)) as [[x rest]|]; [|tauto].
+  simpl. destruct (snd ev) as [p|e]; destruct (err c) as [e0|] eqn:Ee; simpl; repeat split; auto;
+    unfold woken; simpl; rewrite ?Ee; try congruence;
+    destruct (buffer c); simpl; auto; try congruence.
+Qed.
+
+Lemma fold_complete_frame : forall batch c,
+  nrun (fold_left complete batch c) = nrun c /\ remaining (fold_left complete batch c) = remaining c /\
+  queued (fold_left complete batch c) = queued c /\ st (fold_left complete batch c) = st c /\
+  spawned (fold_left complete batch c) = spawned c /\
+  starved (rtrace (fold_left complete batch c)) = starved (rtrace c) /\
+  (woken c = true -> woken (fold_left complete batch c) = true) /\
+  (woken (fold_left complete batch c) = false -> fold_left complete batch c = c).
+Proof.
+  induction batch as [|ev b IH]; intros c; simpl; [tauto|].
+  destruct (complete_frame c ev) as (A & B & C & D & E & F & G & H).
+  destruct (IH (complete c ev)) as (A' & B' & C' & D' & E' & F' & G' & H').
+  repeat split; try congruence; auto.
+  intros Hw. assert (Hc : woken (complete c ev) = false).
+  { destruct (woken (complete c ev)) eqn:W; auto. rewrite G' in Hw; auto. }
+  rewrite H'; auto.
+Qed.
+
+Lemma step_post conc budget c batch : Inv conc budget c -> Q conc c -> Q conc (step conc c batch).
+Proof.
+  intros HI HQ. pose proof HQ as [HR Hsp]. unfold step. destruct (st c) eqn:Est; try exact HQ.
+  destruct (fold_complete_frame batch c) as (A & B & C & D & E & F & G & H).
+  destruct (woken (fold_left complete batch c)) eqn:W.
+  - apply flush_post. destruct HR as [H1 H2 H3 H4 H5 H6].
+    apply (resume_post _ conc budget); auto using inv_fold_complete.
+    + rewrite D, Est. discriminate.
+    + unfold Sat. rewrite A, B, C, F. apply H6; auto.
+    + rewrite A. apply H2; auto.
+  - rewrite H; auto.
+Qed.
+
+Lemma q_run conc budget orc sched : Q conc (run conc budget orc sched).
+Proof.
+  unfold run.
+  assert (HI : Inv conc budget (flush (boot conc (init budget orc)))) by auto using inv_flush, inv_boot, inv_init.
+  assert (HQ : Q conc (flush (boot conc (init budget orc)))) by (apply flush_post, boot_post).
+  revert HI HQ. generalize (flush (boot conc (init budget orc))).
+  induction sched as [|b s IH]; intros c HI HQ; simpl; auto.
+  apply IH; [apply inv_step|eapply step_post]; eauto.
+Qed.
+
+(* ------------------------------------------------------------------------------------------------------------ *)
+(* the theorems about delivery and progress, on the chronological trace                                          *)
+Lemma results_app : forall a b, results (a ++ b) = results a ++ results b.
+Proof. intros a; induction a as [|e a IH]; intros; simpl; auto; destruct e; simpl; rewrite ?IH; auto. Qed.
+Lemma dones_app : forall a b, dones (a ++ b) = dones a ++ dones b.
+Proof. intros a; induction a as [|e a IH]; intros; simpl; auto; destruct e; simpl; rewrite ?IH; auto. Qed.
+Lemma takes_app : forall a b, takes (a ++ b) = takes a ++ takes b.
+Proof. intros a; induction a as [|e a IH]; intros; simpl; auto; destruct e; simpl; rewrite ?IH; auto. Qed.
+Lemma results_rev l : results (rev l) = rev (results l).
+Proof. induction l as [|e l IH]; simpl; auto. rewrite results_app, IH. destruct e; simpl; rewrite ?app_nil_r; auto. Qed.
+Lemma dones_rev l : dones (rev l) = rev (dones l).
+Proof. induction l as [|e l IH]; simpl; auto. rewrite dones_app, IH. destruct e; simpl; rewrite ?app_nil_r; auto. Qed.
+Lemma takes_rev l : takes (rev l) = rev (takes l).
+Proof. induction l as [|e l IH]; simpl; auto. rewrite takes_app, IH. destruct e; simpl; rewrite ?app_nil_r; auto. Qed.
+Lemma results_length l : length (results l) = n_result l.
+Proof. induction l as [|e l IH]; simpl; auto. destruct e; simpl; auto. Qed.
+
+Lemma oks_pre_incl : forall l x, In x (map fst (oks_pre l)) -> In x (map fst l).
+Proof.
+  induction l as [|[s o] l IH]; simpl; intros x H; auto.
+  destruct o as [p|e]; simpl in H; [|contradiction]. destruct H; auto.
+Qed.
+
+Lemma oks_pre_nodup : forall l, NoDup (map fst l) -> NoDup (map fst (oks_pre l)).
+Proof.
+  induction l as [|[s o] l IH]; simpl; intros H; auto.
+  inversion H; subst. destruct o as [p|e]; simpl; [|constructor].
+  constructor; auto. intros Hin. apply oks_pre_incl in Hin. contradiction.
+Qed.
+
+Lemma nodup_app_r {A} : forall (a b : list A), NoDup (a ++ b) -> NoDup b.
+Proof. induction a as [|x a IH]; simpl; intros b H; auto. inversion H; auto. Qed.
+
+Definition sid_of (x : nat * nat * Z) : nat := fst (fst x).
+
+(* D3: (1) on_job_result receives exactly the successful completions that precede the first failure, in completion
+   order, each once; (2) a job completes at most once; (3) the job object handed to on_job_result is the job that was
+   started under that sid; (4) sids number the started jobs; (5) when collect_async returns, every started job's result
+   has been delivered exactly once *)
+Theorem collector_exactly_once : forall conc budget orc sched,
+  let c := run conc budget orc sched in
+  let tr := trace c in
+  map rp (results tr) = oks_pre (dones tr)
+  /\ NoDup (map fst (dones tr))
+  /\ (forall s tg p, In (s, tg, p) (results tr) -> In (s, tg) (takes tr))
+  /\ map fst (takes tr) = seq 0 (n_take tr)
+  /\ (st c = Halted -> Permutation (map sid_of (results tr)) (seq 0 (n_take tr))).
+Proof.
+  intros conc budget orc sched c tr.
+  pose proof (inv_run conc budget orc sched) as HI.
+  pose proof (inv2_run conc budget orc sched) as HJ.
+  pose proof (q_run conc budget orc sched) as [HR HS].
+  fold c in HI, HJ, HR, HS.
+  destruct HJ as [J1 J2 J3 J4 J5 J6 J7 J8].
+  assert (T1 : map rp (results tr) = oks_pre (dones tr)).
+  { unfold tr, trace. rewrite results_rev, dones_rev, <- J1, (r_buf _ _ HR). simpl. now rewrite app_nil_r. }
+  assert (T2 : NoDup (map fst (dones tr))).
+  { unfold tr, trace. rewrite dones_rev, map_rev. apply NoDup_rev.
+    unfold ids in J4. apply nodup_app_r in J4. apply nodup_app_r in J4. exact J4. }
+  assert (T3 : forall s tg p, In (s, tg, p) (results tr) -> In (s, tg) (takes tr)).
+  { unfold tr, trace. intros s tg p H. rewrite results_rev in H. apply in_rev in H.
+    rewrite takes_rev. apply in_rev. rewrite rev_involutive. eauto. }
+  assert (T4 : map fst (takes tr) = seq 0 (n_take tr)).
+  { unfold tr, trace. rewrite takes_rev, n_take_rev, J8. f_equal. apply (i_sid _ _ _ HI). }
+  repeat split; auto.
+  intros Hh.
+  assert (Hn : n_take tr = n_result tr).
+  { unfold tr, trace. rewrite n_take_rev, n_result_rev. rewrite (i_run _ _ _ HI), (r_halt _ _ HR Hh). lia. }
+  apply NoDup_Permutation_bis.
+  - replace (map sid_of (results tr)) with (map fst (map rp (results tr))).
+    + rewrite T1. apply oks_pre_nodup; auto.
+    + rewrite map_map. reflexivity.
+  - rewrite seq_length, map_length, results_length. lia.
+  - intros s Hs. apply in_map_iff in Hs. destruct Hs as [[[s' tg] p] [E Hin]]. unfold sid_of in E. simpl in E. subst s'.
+    rewrite <- T4. apply in_map_iff. exists (s, tg). split; auto. eapply T3; eauto.
+Qed.
+
+(* D4: the loop never runs out of fuel; it is suspended only while a sampler call is in flight (no lost wake-up),
+   with nothing buffered and every spawned task started; it returns iff it is idle, and then everything that was
+   started has been completed and delivered; while suspended or returned with spare capacity and budget, the queue is
+   empty and the most recent next_job() answer was empty (it kept asking until no work was left); an exception raised
+   by collect_async is the failure of one of its jobs *)
+Theorem collector_progress : forall conc budget orc sched,
+  let c := run conc budget orc sched in
+  let tr := trace c in
+  st c <> OutOfFuel
+  /\ (st c = Waiting -> n_done tr < n_start tr /\ n_result tr = n_done tr /\ n_start tr = n_take tr)
+  /\ (st c = Halted <-> n_take tr = n_result tr)
+  /\ (st c = Halted -> n_result tr = n_done tr /\ n_done tr = n_start tr /\ n_start tr = n_take tr)
+  /\ (st c = Waiting \/ st c = Halted ->
+      match budget with Some b => (charged tr < b)%Z | None => True end ->
+      n_take tr < n_result tr + conc -> queued c = [] /\ starved (rev tr) = true)
+  /\ (forall e, st c = Raised e -> exists s, In (s, Err e) (dones tr)).
+Proof.
+  intros conc budget orc sched c tr.
+  pose proof (inv_run conc budget orc sched) as HI.
+  pose proof (inv2_run conc budget orc sched) as HJ.
+  pose proof (q_run conc budget orc sched) as [HR HS].
+  fold c in HI, HJ, HR, HS.
+  destruct HI as [I1 I2 I3 I4 I5 I5' I6 I7 I8 I9 I10].
+  destruct HR as [R1 R2 R3 R4 R5 R6].
+  unfold tr, trace. rewrite n_take_rev, n_start_rev, n_done_rev, n_result_rev, charged_rev, rev_involutive, dones_rev.
+  rewrite R1 in *. simpl in *.
+  pose proof (always_head _ _ I7) as Hc. unfold P_conc in Hc.
+  split; [exact R5|]. split; [|split; [|split; [|split]]].
+  - intros Hw. destruct (R2 Hw) as [He Hp]. specialize (I5 He). rewrite (HS (or_introl Hw)) in I2. simpl in I2. lia.
+  - split.
+    + intros Hh. rewrite (R3 Hh) in I1. lia.
+    + intros Hn. destruct (st c) eqn:Est; auto.
+      * destruct (R2 eq_refl). lia.
+      * assert (He : err c <> None) by (rewrite (R4 e eq_refl); discriminate). specialize (I5' He). lia.
+      * congruence.
+  - intros Hh. rewrite (R3 Hh) in I1. lia.
+  - intros Hq Hb Hn. apply R6; auto.
+    + rewrite I8. destruct budget; simpl; auto. apply Z.ltb_lt. lia.
+    + lia.
+  - intros e He. destruct (j_errin _ HJ e (R4 e He)) as [s Hs]. exists s. apply in_rev. rewrite rev_involutive. exact Hs.
+Qed.
+
+(* ------------------------------------------------------------------------------------------------------------ *)
+(* termination: whatever happened so far, if the jobs in flight keep completing the loop finishes after at most
+   (jobs in flight + queued + still to be handed out by next_job) further completions                             *)
+Definition mu (c : col) : nat :=
+  length (inflight c) + length (spawned c) + length (queued c) + length (concat (oracle c)).
+
+Lemma mu_fill : forall fuel conc c, mu (fill fuel conc c) = mu c.
+Proof.
+  induction fuel as [|f IH]; intros conc c; simpl; auto.
+  destruct (budget_left (remaining c) && (nrun c <? conc)); auto.
+  assert (Ha : mu (match queued c with [] => ask c | _ :: _ => c end) = mu c).
+  { destruct (queued c) eqn:Eq; auto. unfold ask. destruct (oracle c) as [|a o] eqn:Eo; unfold mu; simpl; rewrite ?Eq, ?Eo; auto.
+    simpl. rewrite !app_length. lia. }
+  set (c1 := match queued c with [] => ask c | _ :: _ => c end) in *.
+  destruct (queued c1) as [|j q] eqn:Eq; auto.
+  rewrite IH, <- Ha. unfold mu. simpl. rewrite Eq, app_length. simpl. lia.
+Qed.
+
+Lemma mu_resume : forall fuel conc c, mu (resume fuel conc c) = mu c.
+Proof.
+  induction fuel as [|f IH]; intros conc c.
+  - simpl. destruct (buffer c); auto. destruct (err c); auto.
+  - destruct (buffer c) as [|x b] eqn:Eb.
+    + rewrite resume_nil; auto. destruct (err c); auto.
+    + rewrite (resume_cons f conc c x b Eb). cbv zeta.
+      assert (Hm : mu (fill (S conc) conc (deliver x b c)) = mu c) by (rewrite mu_fill; reflexivity).
+      destruct (is_oof _); auto. destruct (nrun _ =? 0); auto. rewrite IH. exact Hm.
+Qed.
+
+Lemma mu_start_all : forall n c, mu (start_all n c) = mu c.
+Proof.
+  induction n as [|n IH]; intros c; simpl; auto.
+  destruct (spawned c) as [|x r] eqn:Es; auto. rewrite IH. unfold mu. simpl. rewrite Es, app_length. simpl. lia.
+Qed.
+
+Lemma mu_flush c : mu (flush c) = mu c.
+Proof. unfold flush. destruct (st c); auto using mu_start_all. Qed.
+
+Lemma step_done : forall conc l c, st c <> Waiting -> fold_left (step conc) l c = c.
+Proof.
+  induction l as [|b l IH]; intros c H; simpl; auto.
+  assert (E : step conc c b = c) by (unfold step; destruct (st c); congruence).
+  rewrite E. auto.
+Qed.
+
+Lemma waiting_inflight conc budget c : Inv conc budget c -> Q conc c -> st c = Waiting -> inflight c <> [].
+Proof.
+  intros [I1 I2 I3 I4 I5 I5' I6 I7 I8 I9 I10] [[R1 R2 R3 R4 R5 R6] HS] Hw.
+  destruct (R2 Hw) as [He Hp]. specialize (I5 He). rewrite (HS (or_introl Hw)) in I2. rewrite R1 in I5. simpl in *.
+  intros E. rewrite E in I3. simpl in I3. lia.
+Qed.
+
+Lemma drain : forall n conc budget c, Inv conc budget c -> Q conc c -> mu c <= n ->
+  st (fold_left (step conc) (repeat [(0, Ok 0%Z)] n) c) <> Waiting.
+Proof.
+  induction n as [|n IH]; intros conc budget c HI HQ Hm; simpl.
+  - intros Hw. apply (waiting_inflight conc budget c HI HQ Hw). unfold mu in Hm.
+    apply length_zero_iff_nil. lia.
+  - destruct (st c) eqn:Est.
+    2,3,4: rewrite step_done; unfold step; rewrite Est; congruence.
+    apply (IH conc budget); auto using inv_step.
+    + eapply step_post; eauto.
+    + pose proof (waiting_inflight conc budget c HI HQ Est) as Hne.
+      destruct HQ as [[R1 R2 R3 R4 R5 R6] HS]. destruct (R2 Est) as [He Hp].
+      unfold step. rewrite Est.
+      change (fold_left complete [(0, Ok 0%Z)] c) with (complete c (0, Ok 0%Z)).
+      destruct (inflight c) as [|x rest] eqn:Ei; [congruence|].
+      assert (Hc1 : woken (complete c (0, Ok 0%Z)) = true /\ S (mu (complete c (0, Ok 0%Z))) = mu c).
+      { unfold complete. simpl. rewrite Ei. simpl. rewrite He. unfold woken, mu. simpl. rewrite R1, Ei. simpl. split; auto. }
+      destruct Hc1 as [Hw1 Hm1]. rewrite Hw1, mu_flush, mu_resume. lia.
+Qed.
+
+Theorem collector_terminates : forall conc budget orc sched,
+  exists k, st (run conc budget orc (sched ++ repeat [(0, Ok 0%Z)] k)) <> Waiting.
+Proof.
+  intros conc budget orc sched. exists (mu (run conc budget orc sched)).
+  unfold run at 1. rewrite fold_left_app. fold (run conc budget orc sched).
+  apply (drain _ conc budget); auto using inv_run, q_run.
+Qed.
